@@ -1063,6 +1063,46 @@ func checkErrType(kind string, fail bool) string {
 			return n * 2, nil
 		}
 	}
+	// the same for the signature shapes a typed fast path would single out
+	if kind == "error" {
+		sigCalls := 0
+		boom := func() error {
+			sigCalls++
+			if fail {
+				return fmt.Errorf("rejected")
+			}
+			return nil
+		}
+		sigs := map[string]interface{}{
+			"sDec":    func(n *decimal.Big) (*decimal.Big, error) { return n, boom() },
+			"sStr":    func(s string) (string, error) { return s, boom() },
+			"sPair":   func(a, b string) (bool, error) { return a == b, boom() },
+			"sFloat":  func(f float64) (float64, error) { return f, boom() },
+			"sAny":    func(v interface{}) (interface{}, error) { return v, boom() },
+			"sNone":   func() (int, error) { return 1, boom() },
+			"sCtx":    func(ctx context.Context, s string) (string, error) { return s, boom() },
+			"sInts":   func(xs ...int) (int, error) { return len(xs), boom() },
+			"sTime":   func(t time.Time) (time.Time, error) { return t, boom() },
+			"sBoolIn": func(b bool) (bool, error) { return b, boom() },
+		}
+		for _, f := range []string{"sDec(41)", "sStr('abc')", "sPair('abc', 'b')", "sFloat(2.5)", "sAny('x')", "sNone()", "sCtx('c')", "sInts(1, 2, 3)", "sTime(date(2024, 1, 2))", "sBoolIn(true)", "[sStr('a'), sDec(1)]", "sStr(sStr('a'))"} {
+			sigCalls = 0
+			p := obs.Parse([]byte(f))
+			if !p.OK() {
+				return "HARNESS: " + f
+			}
+			r := formula.NewRunner()
+			r.SetThis(sigs)
+			out := obs.Eval(r, context.Background(), p.Src.Expression)
+			wantCalls := strings.Count(f, "(") - strings.Count(f, "date(")
+			if fail {
+				wantCalls = 1 // the first returned error ends the evaluation
+			}
+			if out.Panic != nil || (out.Err != nil) != fail || sigCalls != wantCalls {
+				return fmt.Sprintf("%s with every host function returning %v: %s after %d invocations, want %d invocation(s) and error=%v", f, map[bool]string{true: "an error", false: "no error"}[fail], out, sigCalls, wantCalls, fail)
+			}
+		}
+	}
 	for _, f := range []string{"reserve(3.9) + 1", "[reserve(3.9), 1]", "$a = reserve(3.9), $a"} {
 		calls = 0
 		p := obs.Parse([]byte(f))
@@ -1321,4 +1361,71 @@ func TestC11EmptySpread(t *testing.T) {
 		}
 	}
 	run.Exhaustive()
+}
+
+type c11Sku string
+type c11Offset int
+
+var c11NamedCases = []struct{ f, want, recv string }{
+	{"startWith(code, 'AB')", "true", ""}, {"len(code)", "8", ""}, {"upper(code)", "AB-12-AB", ""}, {"find(code, '12')", "3", ""}, {"replace(code, '-', '')", "AB12ab", ""},
+	{"lpad(num, '0', 5)", "00042", ""}, {"left('ABCD', off)", "AB", ""}, {"join(tags, ',')", "x,,y", ""},
+	{"recS(code)", "AB-12-ab", "AB-12-ab"}, {"recS(num)", "42", "42"}, {"recI(off)", "2", "2"}, {"recV(code, num)", "2", "AB-12-ab|42"}, {"recV(tags...)", "3", "x||y"},
+}
+
+func checkNamed(f string) string {
+	var got []string
+	data := map[string]interface{}{
+		"code": c11Sku("AB-12-ab"), "num": json.Number("42"), "off": c11Offset(2), "tags": []c11Sku{"x", "", "y"},
+		"recS": func(s string) (string, error) { got = append(got, s); return s, nil },
+		"recI": func(n int) (int, error) { got = append(got, strconv.Itoa(n)); return n, nil },
+		"recV": func(xs ...string) (int, error) { got = append(got, strings.Join(xs, "|")); return len(xs), nil },
+	}
+	for _, c := range c11NamedCases {
+		if c.f != f {
+			continue
+		}
+		p := obs.Parse([]byte(c.f))
+		if !p.OK() {
+			return "HARNESS: does not parse: " + c.f
+		}
+		r := formula.NewRunner()
+		r.SetThis(data)
+		out := obs.Eval(r, context.Background(), p.Src.Expression)
+		val := fmt.Sprint(out.Val)
+		if rr, ok := obs.Rat(out.Val); ok {
+			val = rr.RatString()
+		}
+		if out.Panic != nil || out.Err != nil || val != c.want || (c.recv != "" && (len(got) != 1 || got[0] != c.recv)) {
+			return fmt.Sprintf("%s over values of defined types (sku string, offset int, json.Number, []sku) -> %s, received %q; want %s and the host function called once with %q", c.f, out, got, c.want, c.recv)
+		}
+	}
+	return ""
+}
+
+// TestC11NamedTypes: "anything to string by formatting", "numbers to Go integers" -
+// also for host values whose Go type is a defined type over string or int.
+func TestC11NamedTypes(t *testing.T) {
+	run := h.Begin("C11", "named-types", "enumerated: host values of defined types (type sku string, type offset int, json.Number, []sku) handed to string / int / []string parameters of builtins and of recording host functions; oracle: the parameter receives the value's text / integer, one invocation; every case non-trivial")
+	defer run.End(t)
+	if i, _ := h.Shard(); i != 0 {
+		return
+	}
+	for _, c := range c11NamedCases {
+		run.Count(true, "")
+		run.Sample("named", c.f)
+		if msg := checkNamed(c.f); msg != "" {
+			run.Fail("c11-named", c.f, msg)
+		}
+	}
+	run.Exhaustive()
+}
+
+func init() {
+	h.RegisterReplay("c11-named", func(raw json.RawMessage) string {
+		f, err := h.Decode[string](raw)
+		if err != nil {
+			return "bad replay: " + err.Error()
+		}
+		return checkNamed(f)
+	})
 }
